@@ -3,6 +3,7 @@ package lfs
 import (
 	"errors"
 	"fmt"
+	"sort"
 	"strings"
 
 	"github.com/git-lfs/git-lfs/v3/git"
@@ -121,7 +122,16 @@ func skipSmudgeFilterAttribute() *Attribute {
 // different value than what is given, and force is false, an error will be
 // returned immediately, and the rest of the attributes will not be set.
 func (a *Attribute) Install(opt *FilterOptions) error {
-	for k, v := range a.Properties {
+	// Visit the keys in a fixed order so that an install that stops at a
+	// conflicting key always leaves the same keys set.
+	keys := make([]string, 0, len(a.Properties))
+	for k := range a.Properties {
+		keys = append(keys, k)
+	}
+	sort.Strings(keys)
+
+	for _, k := range keys {
+		v := a.Properties[k]
 		var upgradeables []string
 		if a.Upgradeables != nil {
 			// use pre-normalised key since caller will have set up the same
